@@ -45,6 +45,11 @@ def run(ctx):
     rep.floor('Display rule instances', n3, 6)
     rep.floor('functions reachable from Display', nd, 25)
     rep.floor('formatting rounding sinks', n4, 2)
+    # the configured mode reaches the rounder (PROV-FMTROUND above); it is honoured only if no path of the ASCII rounding
+    # routine drops digits without consulting that rounder (a shortcut that truncates on its own ignores the configuration)
+    from rules import asciiround
+    nar = asciiround.check(rep, F)
+    rep.floor('positions of the ASCII rounding routine', nar, 6)
     # build.rs
     FB = ctx.facts('default', 'rel', crate='build_script_build')
     with open(os.path.join(VERIF, 'tables', 'config_pairing.json')) as fh:
